@@ -14,6 +14,7 @@ type zzWorld struct {
 	rpc   []*Conn   // the Conn built on conns[i]
 	up    map[string]bool
 	dials map[string]int
+	streams bool // the stub servers refuse stream opens for methods other than S.Watch
 }
 
 func (z *zzWorld) live(addr string) int {
@@ -56,6 +57,7 @@ func zzNewTransport(z *zzWorld, maxConns, maxIdle int) *Transport {
 		m := newZZMsgs(8)
 		m.addr = address
 		m.auto = true
+		m.autoStreams = z.streams
 		m.yieldW = false
 		z.conns = append(z.conns, m)
 		c := NewConnWithCodec(NewClientCodec(&zzBytesCodec{}, nil, m, 64))
@@ -68,12 +70,16 @@ func zzNewTransport(z *zzWorld, maxConns, maxIdle int) *Transport {
 	return t
 }
 
-func (z *zzWorld) kill(addr string) {
+func (z *zzWorld) kill(addr string) { z.killWith(addr, io.EOF) }
+
+// killWith: the server of addr goes away; its connections end with err (io.EOF for an orderly close,
+// any other error for a reset, a time-out, a broken TLS record ...)
+func (z *zzWorld) killWith(addr string, err error) {
 	z.up[addr] = false
 	for _, m := range z.conns {
 		if m.addr == addr && !m.closed {
 			m.auto = false
-			m.fail(io.EOF)
+			m.fail(err)
 		}
 	}
 }
@@ -430,7 +436,11 @@ func zzH_TRvia() {
 		open = st
 	}
 	vQuiesce()
-	z.kill("a")
+	if vChoose("dies-with-read-error", 2) == 1 {
+		z.killWith("a", errZZRead)
+	} else {
+		z.kill("a")
+	}
 	vQuiesce()
 	if open != nil && vChoose("close-it-after-death", 2) == 1 {
 		open.Close()
@@ -626,4 +636,98 @@ func zzH_TRdown() {
 	}
 	t.Close()
 	vReach("end")
+}
+
+// zzH_TRcic: CloseIdleConnections (or a housekeeping tick) while the only pooled connection of an
+// address carries an unanswered call, MaxConnsPerHost = 1: the busy connection stays where the pool
+// can see it, so further traffic to the address does not dial past the limit, the long call still
+// succeeds, and Close afterwards closes every connection ever dialed.
+func zzH_TRcic() {
+	z := &zzWorld{up: map[string]bool{"a": true, "b": true}, dials: map[string]int{}}
+	t := zzNewTransport(z, 1, 1)
+	vSetTimerBudget(vParam("tr.ticks", 1))
+	arg := []byte{0x31}
+	var r0 []byte
+	vAssert(t.Call("a", "S.Echo", &arg, &r0) == nil, "first-call-ok")
+	vQuiesce()
+	if len(z.conns) != 1 {
+		return
+	}
+	m := z.conns[0]
+	m.auto = false
+	m.autoPing = true
+	m.out = make(chan []byte, 8)
+	var err error
+	var reply []byte
+	returned := false
+	vGo("holder", func() {
+		err = t.Call("a", "S.Echo", &arg, &reply)
+		returned = true
+	})
+	vQuiesce()
+	if len(z.conns) != 1 || len(m.out) != 1 {
+		return // a tick replaced the pooled connection before the long call: not this scenario
+	}
+	var req pbRequest
+	req.Unmarshal(<-m.out)
+	if vChoose("housekeeping", 2) == 1 {
+		t.CloseIdleConnections()
+	} else {
+		vQuiesce() // a tick may fire
+	}
+	vAssert(m.nCloses == 0, "busy-connection-not-closed-by-housekeeping")
+	// further traffic to the same address while the long call is still unanswered
+	for _, c := range z.conns {
+		c.auto = true
+	}
+	a2 := []byte{0x32}
+	var r2 []byte
+	e2 := t.Call("a", "S.Echo", &a2, &r2)
+	vAssert(e2 == nil && vEqBytes(r2, zzReplyFor(a2)), "reply-ok")
+	vAssert(z.live("a") <= 1, "open-conns-within-MaxConnsPerHost")
+	m.deliver(zzResponse(req.Seq, "", zzReplyFor(req.Args)))
+	vQuiesce()
+	vAssert(returned && err == nil && vEqBytes(reply, zzReplyFor(arg)), "long-call-succeeds")
+	t.Close()
+	vAtEnd(func() {
+		vAssert(z.live("a") == 0, "close-closes-every-connection")
+		vReach("end")
+	})
+}
+
+// zzH_C15r: a pooled connection whose last use is over - a call, a ping, a stream that was opened
+// and closed, a stream open the server refused - is unused: CloseIdleConnections closes it (and
+// Close leaves nothing open). A use that leaves the connection counted as busy for ever would keep
+// it out of reach of every reclaiming path.
+func zzH_C15r() {
+	z := &zzWorld{up: map[string]bool{"a": true, "b": true}, dials: map[string]int{}, streams: true}
+	t := zzNewTransport(z, 1, 1)
+	vSetTimerBudget(0)
+	arg := []byte{0x31}
+	var r []byte
+	switch vChoose("last-use", 4) {
+	case 0:
+		vAssert(t.Call("a", "S.Echo", &arg, &r) == nil, "first-call-ok")
+	case 1:
+		vAssert(t.Ping("a") == nil, "first-call-ok")
+	case 2:
+		st, err := t.NewStream("a", "S.Watch")
+		vAssert(err == nil && st != nil, "first-call-ok")
+		if st != nil {
+			st.Close()
+		}
+	case 3:
+		st, err := t.NewStream("a", "S.Nope")
+		vAssert(err != nil && st == nil, "refused-stream-open-reports-server-error")
+	}
+	vQuiesce()
+	vAssert(z.live("a") == 1, "first-call-ok")
+	t.CloseIdleConnections()
+	vQuiesce()
+	vAssert(z.live("a") == 0, "unused-connection-closed-by-CloseIdleConnections")
+	t.Close()
+	vAtEnd(func() {
+		vAssert(z.live("a") == 0, "close-closes-every-connection")
+		vReach("end")
+	})
 }
